@@ -14,8 +14,10 @@ for d in seeded/C*-m*; do
     echo "$(basename $d) patch-no-longer-applies" >> seeded/REPORT.txt; continue
   fi
   git -C /repo apply $PWD/$d/patch.diff
+  cp evidence/$prop.json evidence/.$prop.keep 2>/dev/null     # evidence/<id>.json describes runs on the real tree only
   out=$(./check $prop --tier $TIER 2>&1 | grep -E "^VIOLATION" | head -1)
   git -C /repo checkout -- .
+  [ -f evidence/.$prop.keep ] && mv evidence/.$prop.keep evidence/$prop.json
   if [ -n "$out" ]; then echo "$(basename $d) DETECTED ${out##* }" >> seeded/REPORT.txt; else echo "$(basename $d) missed" >> seeded/REPORT.txt; fi
 done
 cat seeded/REPORT.txt
